@@ -1,6 +1,7 @@
 package db
 
 import (
+	"Havoc/pkg/verifhook"
 	"errors"
 	//"log"
 )
@@ -39,6 +40,8 @@ func (db *DB) LinkAdd(ParentAgentID int, LinkAgentID int) error {
 	}
 
 	stmt.Close()
+
+	verifhook.Point("db.exec.LinkAdd")
 
 	return nil
 }
@@ -147,6 +150,8 @@ func (db *DB) LinkRemove(ParentAgentID int, LinkAgentID int) error {
 	if err != nil {
 		return err
 	}
+
+	verifhook.Point("db.exec.LinkRemove")
 
 	return nil
 }
